@@ -344,7 +344,7 @@ def replay(prop, item, clause):
     for x in r: print(x)
     return 1 if any(x[0] == clause for x in r) else 0
 
-def run_family(prop, argv, level, rule, explanation, trust, assume):
+def run_family(prop, argv, level, rule, explanation, trust, assume, extra=None):
     tier, seed, rest = common.parse_args(argv)
     common.use_repo()
     run = Run(prop, tier, seed, level, 'cd /verif && ./vcheck %s --tier %s' % (prop, tier))
@@ -372,4 +372,6 @@ def run_family(prop, argv, level, rule, explanation, trust, assume):
     for t in trust: run.trust(t)
     for a in assume: run.assume(a)
     run.samples = ['%s:%s (%d)' % (k[0], k[1], v[0]) for k, v in list(sorted(groups.items()))[:5]] or ['all clauses held']
+    if extra is not None:
+        extra(run)
     return run.finish()
